@@ -11,6 +11,7 @@ CONSTANTS
   SplitPw <- MCSplitPw
   InitActive <- MCInit
   Paired = FALSE
+  WithBad = TRUE
   Fixed = FALSE
 INVARIANTS TypeOK OneGeneration Refines OutcomeAllowed UsersRefine CodeUsersRefine
 PROPERTIES C31Step StaysDeleted OnlyOwnTriples
